@@ -52,7 +52,14 @@ type c06step struct {
 
 // capVariant builds an authenticate payload; valid reports whether it carries accepted string credentials in a well-formed map.
 func capVariant(rng *rand.Rand, user, pass string) (payload []byte, desc string, valid bool) {
-	switch rng.Intn(12) {
+	switch rng.Intn(14) {
+	case 12:
+		// the accepted pair of ANOTHER connection (the harness's control connection authenticates in every
+		// plan) cut at a different place: same characters in a row, a different user / token pair
+		k := 1 + rng.Intn(6)
+		return capMap("auth_user", "control"[:k], "auth_token", "control"[k:]+"control-secret"), "accepted-pair-of-another-connection-split-differently", false
+	case 13:
+		return capMap("auth_user", "", "auth_token", "controlcontrol-secret"), "accepted-pair-of-another-connection-as-token-only", false
 	case 0, 1:
 		return capMap("ClientServerSocket", true, "auth_user", user, "auth_token", pass), "valid-credentials", true
 	case 2:
@@ -85,7 +92,7 @@ func capVariant(rng *rand.Rand, user, pass string) (payload []byte, desc string,
 }
 
 func c06(c *wk.Ctx) {
-	c.Note("rule", "a server with a dictionary authenticator (unique user per connection, decisions recorded) hosts the Probe service; each plan opens 2-4 raw connections that concurrently send PRNG sequences of 1-14 frames from a grammar: every message type, service in {0, directory, Probe, unknown}, any object/action, payloads = capability maps (valid, wrong token, unknown user, missing, forged __qi_auth_state as uint/int, wrongly typed or raw-typed credentials, truncated, oversized count), work() arguments carrying a token unique to the connection, random bytes, invalid headers. The monitor keeps per connection 'a well-formed authenticate request with accepted string credentials was sent earlier'. Oracle: a token sent while that is false is never executed (counter read after a FIFO barrier), also on connections that stay unauthenticated while another authenticates; a Call to a service other than 0 sent while it is false is answered with an Error for its id and the stream ends. Stream lenient: servers whose authenticator does not constrain the user name (bus.Yes, a token-only one); authenticate requests whose auth_user / auth_token entries are absent, strings or of another type (uint, int, bool, list, raw, float, void): a request with a wrongly typed entry never authenticates (the following call is refused and not executed), a well-typed one the authenticator accepts does. Distinct non-trivial = distinct frame sequences containing at least one frame addressed to a service other than 0 before any accepted authenticate.")
+	c.Note("rule", "a server with a dictionary authenticator (unique user per connection, decisions recorded) hosts the Probe service; each plan opens 2-4 raw connections that concurrently send PRNG sequences of 1-14 frames from a grammar: every message type, service in {0, directory, Probe, unknown}, any object/action, payloads = capability maps (valid, wrong token, unknown user, missing, forged __qi_auth_state as uint/int, the accepted pair of another connection split at another place, wrongly typed or raw-typed credentials, truncated, oversized count), work() arguments carrying a token unique to the connection, random bytes, invalid headers. The monitor keeps per connection 'a well-formed authenticate request with accepted string credentials was sent earlier'. Oracle: a token sent while that is false is never executed (counter read after a FIFO barrier), also on connections that stay unauthenticated while another authenticates; a Call to a service other than 0 sent while it is false is answered with an Error for its id and the stream ends. Stream lenient: servers whose authenticator does not constrain the user name (bus.Yes, a token-only one); authenticate requests whose auth_user / auth_token entries are absent, strings or of another type (uint, int, bool, list, raw, float, void): a request with a wrongly typed entry never authenticates (the following call is refused and not executed), a well-typed one the authenticator accepts does. Distinct non-trivial = distinct frame sequences containing at least one frame addressed to a service other than 0 before any accepted authenticate.")
 	var w *world
 	var rec *recordingAuth
 	var ps *probeService
